@@ -67,7 +67,9 @@ def wiring(ctx, rep, mod, enc_half, dec_half, enc_fn, dec_fn, inline=None):
 def key_field(ctx, half):
     se = ctx.wrap.run(half + "::new")
     if se is None:
-        return None
+        # no `new` of its own (keyed by another constructor): the key is the array field
+        ks = [i for i, f in enumerate(ctx.fb.adt_fields(half) or []) if ctx.fb.ty(f["ty"]).k == "array"]
+        return ks[0] if len(ks) == 1 else None
     r = strip(se.ret)
     if r[0] == "agg" and r[2] == half:
         for i, o in enumerate(r[4]):
